@@ -413,6 +413,30 @@ fn gen_sessions(seed: u64, tier: &str) -> Vec<Session> {
             out.push(Session { init: vec![("a".to_string(), b"A".to_vec())], stale: vec![], input, class: "long-multibyte-names", oracle_only: true });
         }
     }
+    // request frames AT the size bound: a Get whose frame is MAX_FRAME - k bytes long, for a path that does not exist
+    // (one over-long component) and for a path that escapes the root. Both are answered by a short error frame and the
+    // session goes on (oracle only: `exit 0, one reply per request, the later replies as in a fresh session`)
+    let ks: &[usize] = if tier == "thorough" { &[0, 1, 2, 5, 9, 10, 16, 20, 33, 34, 48, 64] } else { &[0, 1, 5, 20] };
+    for &k in ks {
+        for kind in 0..2 {
+            let target = MAX_FRAME - k;
+            let mk = |l: usize| -> String { if kind == 0 { "a".repeat(l) } else { format!("../{}", "a".repeat(l.saturating_sub(3))) } };
+            let mut l = target - 32;
+            for _ in 0..4 {
+                let cur = frame(&Request::Get { path: mk(l) }).len() - 4;
+                if cur == target { break; }
+                l = (l as i64 + target as i64 - cur as i64) as usize;
+            }
+            if frame(&Request::Get { path: mk(l) }).len() - 4 != target { continue; }
+            let mut input = MAGIC.to_vec();
+            input.extend(frame(&Request::Hello { version: VERSION }));
+            input.extend(frame(&Request::Get { path: mk(l) }));
+            input.extend(frame(&Request::Hello { version: VERSION }));
+            input.extend(frame(&Request::Get { path: "a".into() }));
+            input.extend(frame(&Request::Bye));
+            out.push(Session { init: vec![("a".to_string(), b"A".to_vec())], stale: vec![], input, class: "boundary-frames", oracle_only: true });
+        }
+    }
     out
 }
 
@@ -523,6 +547,14 @@ pub fn main_c12(a: Args) -> i32 {
         }
         // "in step" on the implementation alone: after the first error reply to a well-framed request, the later requests
         // get the replies (and leave the tree) they get in a fresh session started on the tree as it was at that point
+        if s.class == "boundary-frames" {
+            let (raw, _) = parse_replies(&run.stdout);
+            if exit != "EXIT0" || raw.len() != 4 || !raw[1].starts_with("Error") || !raw[3].starts_with("Content") {
+                nfail += 1;
+                out.line("specfail.txt", &format!("{} C12 a well-framed Get whose frame is within the bound was not answered by an error reply with the session staying in step: exit {}, {} replies {:?} (class {})",
+                    id, exit, raw.len(), raw.iter().map(|x| x.chars().take(40).collect::<String>()).collect::<Vec<_>>(), s.class));
+            }
+        }
         if let Some(segs) = segments(&s.input) {
             let (raw, _) = parse_replies(&run.stdout);
             let nreq = segs.iter().filter(|x| x.2 != 2).count();
